@@ -418,6 +418,9 @@ fn format(opt: opt::Opt) -> Result<i32> {
                         Some(ErrorFileWrapper { file, error }) => {
                             match error.downcast_ref::<stylua_lib::Error>() {
                                 Some(stylua_lib::Error::ParseError(err)) => {
+                                    // This error is not reported through `error!`, which is what sets the exit code
+                                    EXIT_CODE.store(2, Ordering::SeqCst);
+
                                     let structured_err =
                                         convert_parse_error_to_json(file, err.to_vec());
                                     // Force write to stderr directly
